@@ -41,6 +41,15 @@ class _FieldOfDressed:
             self.__get__(container=container)[:] = value
         elif hasattr(value, "_xobject"):  # value is a dressed xobject
 
+            if (
+                isinstance(getattr(container._XoStruct, self.name).ftype, Ref)
+                and value._buffer is not container._buffer
+            ):
+                raise MemoryError(
+                    "Cannot make a reference to an object in "
+                    "a different buffer."
+                )
+
             # Copy xobject data from value inside self._xobject
             # (unless same memory area or Ref and same buffer,
             #  in the latter case reference mechanism is used)
